@@ -40,13 +40,15 @@ def check(rep, tier, rng):
     known = load_known()
     # (1) the supported subset must compile, with both derive lines, and expose the documented shape
     #     (the Dump impls and the dispatcher of harness/backgen name every field, variant and trait impl)
-    res = t2.campaign(tier, rep.seed)
-    nviol = 0
-    for k, s in enumerate(res["specs"]):
-        if s["status"] != "ok":
-            nviol += 1
-            if nviol <= 5:
-                rep.violation({"kind": "supported specification: generated module " + s["status"], "spec": s["text"], "rustc": s["compile_errors"]})
+    nviol, ncamp = 0, 0
+    for res in t2.campaign_chunks(tier, rep.seed):
+        ncamp += len(res["specs"])
+        for k, s in enumerate(res["specs"]):
+            if s["status"] != "ok":
+                nviol += 1
+                if nviol <= 5:
+                    rep.violation({"kind": "supported specification: generated module " + s["status"], "spec": s["text"], "rustc": s["compile_errors"]})
+        del res
     # (2) the judgement that stands in for rustc, validated in both directions on a mixed batch
     n = 40 if tier == "quick" else 400
     mixed = [("sup", c["text"]) for c in t3.corpus_supported(n, rng, variants=1, opts={"opaque_bare": True})]
@@ -74,8 +76,8 @@ def check(rep, tier, rng):
             rep.known_finding(tag, kf["what"])
         elif kf and st == "ok":
             rep.notes.append("known finding %s no longer reproduces on: %s" % (tag, text))
-    rep.cov.update({"evaluations": len(res["specs"]) * 2 + len(mixed) * 2, "distinct_nontrivial": len(kinds) + len(res["specs"]),
-                    "programs": len(res["specs"]) + len(mixed), "judgement_agrees_with_rustc": agree, "judgement_disagrees": len(tie),
+    rep.cov.update({"evaluations": ncamp * 2 + len(mixed) * 2, "distinct_nontrivial": len(kinds) + ncamp,
+                    "programs": ncamp + len(mixed), "judgement_agrees_with_rustc": agree, "judgement_disagrees": len(tie),
                     "traces_validated_against_impl": agree, "input_kinds": kinds,
                     "rule": "every supported-subset specification of the T2 campaign is compiled (rustc) with the default derive line and with +Clone, together with Dump impls "
                             "that name every documented field/variant/newtype and a dispatcher that requires TryFrom<Bytes>, TryFrom<&mut Bytes> and WireSize of every declared type; "
